@@ -517,7 +517,10 @@ def check_C14(ctx, rep):
     def exp_ref(t):
         s = param(0)
         cs = consts_compared_with(t, s.hi.t)
-        L = (cs.get("le") or [None])[0]; U = (cs.get("ge") or [None])[0]
+        # `hi <= L` or its complement `hi > L` (`!(hi > L)`; NaN is dealt with by the form comparison), likewise `hi >= U` / `hi < U`
+        negs = [c_ for o_ in ("le", "gt") for c_ in cs.get(o_, []) if c_ < 0]
+        poss = [c_ for o_ in ("ge", "lt") for c_ in cs.get(o_, []) if c_ > 0]
+        L = negs[0] if negs else None; U = poss[0] if poss else None
         okL = L is not None and -750.0 <= L < -600.0
         okU = U is not None and 700.0 < U <= 710.0
         rep.check(okL, "R35", "exp underflow switch", "exp-lower", "exp returns 0 for hi <= %r; the property needs 0 at and below -750 and accuracy down to -600" % L, detail=L)
